@@ -86,6 +86,8 @@ def parse_type(s):
 def _type_of_node(n):
     if isinstance(n, ast.Name):
         nm = n.id
+        if nm == "SDict":
+            return Ty("SDict")
         if nm == "IntMap":
             return Ty("IntMap")
         if nm == "IntMap2":
